@@ -6,6 +6,8 @@ from props.common import strings_run, replay_record
 
 def run(tier, seed):
     out = Outcome("C15", tier, seed)
+    out.add_mc("MC_PathLaws", vlib.tlc_mc("MC_PathLaws", "MC_PathLaws.cfg", workers=8))
+    out.add_mc("MC_PathLaws_P", vlib.tlc_mc("MC_PathLaws", "MC_PathLaws_P.cfg", workers=8))
     strings_run(out, ["helpers", "protocol"], tier, seed, nworkers=12)
     out.finish(dict(rule="all strings/pairs up to the length bound over {/ . : a e-acute CJK} (exhaustive) + constructed prefix/suffix pairs + seeded random longer ones; "
                          "non-trivial = the operand actually occurs in the path (binary helpers) / the path has more than one component (unary helpers)"))
